@@ -335,6 +335,12 @@ def check_c14(prop, tier, replay, selftest):
     tr2 = tlc_trace("Trace_Bdd", out2, boundary=is_reset)
     res.add_trace(tr2)
     _collect_generic(prop, res, tr2, "bdd")
+    # the CLI's --export / --import and the no-overwrite rule
+    out3 = cli_trace(binary, tier, "C14")
+    tr3 = tlc_trace("Trace_Cli", out3, min_per_shard=10)
+    res.add_trace(tr3)
+    cli_collect(prop, res, tr3)
+    res.extra["cli_persistence_scenarios"] = sum(1 for l in tr3["lines"] if '"kind":"cli_persist"' in l)
     npers = sum(1 for l in tr["lines"] + tr2["lines"] if '"kind":"persist"' in l)
     res.extra["persist_points"] = npers
     res.extra["drift_count"] = len(res.drift)
@@ -666,4 +672,69 @@ def check_c10(prop, tier, replay, selftest):
                 "two-valued models; evaluations = presentations; distinct = distinct base text; non-trivial = at least two different sort modes")
     res.samples = [{"id": json.loads(l)["id"], "texts": [p["text"] for p in json.loads(l)["pres"]], "sorts": [p["sort"] for p in json.loads(l)["pres"]]} for l in tr["lines"][3:5]]
     res.assumptions = ["TLC evaluates AdfSem / LexLeq correctly", "labels are ASCII, so code-point order is byte order", "the CLI's --lx / --an flags are exercised in C15"]
+    return res.finish()
+
+
+# ------------------------------------------------------------------ C15 (and the CLI part of C14)
+def cli_trace(binary, tier, tag):
+    bindir = build_repo_bins(("adf-bdd-bin",))
+    out = os.path.join(WORK, "cli_%s.ndjson" % tag)
+    os.makedirs(WORK, exist_ok=True)
+    run_harness(binary, ["cli", "--tier", tier, "--out", out, "--cli", os.path.join(bindir, "adf-bdd"), "--work", WORK])
+    return out
+
+
+def cli_collect(prop, res, tr):
+    for gl, t in tr["tuples"]:
+        if gl is None:
+            continue
+        if t[0] == "MISMATCH" and t[3] == prop:
+            rec = json.loads(tr["lines"][gl - 1])
+            if t[4] == "exit-nonzero-opchar-label":
+                kf = known_match(prop, {"label_has_opchar": True, "lib_in": "biodivine|hybrid", "predicate": "exits-successfully"})
+                if kf and "is invalid" in rec.get("stderr_tail", "") + rec.get("text", "") or (kf and rec.get("exit") == 101):
+                    res.known(kf, "label with an operator character under --lib %s: exit %s (%s)" % (rec["lib"], rec["exit"], rec["text"][:60].replace("\n", " ")))
+                    continue
+            slim = {k: v for k, v in rec.items() if k not in ("cp",)}
+            res.violation("%s_%s" % (rec["id"], json.dumps(t[4])[:50]), {"property": prop, "component": "cli", "record": slim, "mismatch": t},
+                          "%s %s: adf-bdd %s on %r -> exit %s, stdout %s" % (prop, json.dumps(t[4]), " ".join(rec.get("argv", [])), rec.get("text", "")[:150], rec.get("exit", rec.get("export_exit")), json.dumps(rec.get("raw", ""))[:200]))
+
+
+@register("C15")
+def check_c15(prop, tier, replay, selftest):
+    res = Result(prop, tier)
+    binary = build_harness()
+    out = cli_trace(binary, tier, prop)
+    if selftest:
+        def corrupt(rec):
+            if rec.get("kind") != "cli" or rec["exit"] != 0 or len(rec["lines"]) < 1:
+                return None
+            rec["lines"][0][0][0] = {"T": "F", "F": "u", "u": "T"}.get(rec["lines"][0][0][0], "T")
+            return rec
+        ok = selftest_corrupt("Trace_Cli", out, corrupt)
+        print("SELFTEST %s: %s" % (prop, "binding demonstrated" if ok else "FAILED"))
+        return 0 if ok else 2
+    res.add_mc(require_mc(tlc_mc("Cli", "Cli.cfg", workers=8, timeout=600)))
+    tr = tlc_trace("Trace_Cli", out, min_per_shard=10)
+    res.add_trace(tr)
+    cli_collect(prop, res, tr)
+    seen = set()
+    n = 0
+    for line in tr["lines"]:
+        r = json.loads(line)
+        if r["kind"] == "cli":
+            n += 1
+            if len(r["raw"]) >= 2:
+                seen.add((r["text"], r["lib"], r["sort"], tuple(r["flags"]), r["heu"]))
+        elif r["kind"] == "cli_bad":
+            n += 1
+    res.evaluations = n
+    res.distinct = seen
+    res.rule = ("records = launches of the real adf-bdd binary built from the working tree: seeded files (1-5 statements; plain, keyword-like, "
+                "quoted labels, documented whitespace, shuffled facts) x --lib {naive, biodivine, hybrid} x {none, --lx, --an} x flag sets (every "
+                "single flag, every pair, all ten, none; cycling) x --heu values, the three modes on --grd --com --stm, and two malformed variants "
+                "per file (a suspicious mutation; an undeclared statement); distinct = distinct (file, lib, sort, flags, heu); non-trivial = at least two lines printed")
+    res.samples = [{k: json.loads(l)[k] for k in ("argv", "text", "exit", "raw")} for l in tr["lines"][20:23]]
+    res.assumptions = ["TLC evaluates AdfSem / Cli!Sections correctly", "a flag that an arm does not implement contributes no section (DESIGN.md 6/C15)",
+                       "labels do not contain the two characters ') ' (stdout tokenisation)", "--counter is not combined with semantics flags here"]
     return res.finish()
